@@ -19,28 +19,28 @@ func init() {
 	Register(Fact{Module: "C11", Gen: genC11})
 }
 
-func exprText(e ast.Node) string {
+func c11Text(e ast.Node) string {
 	var b bytes.Buffer
 	_ = printer.Fprint(&b, token.NewFileSet(), e)
 	return strings.Join(strings.Fields(b.String()), " ")
 }
 
-// switchEval evaluates the tiny language of the table functions of type.go: a body made of
+// c11SwitchEval evaluates the tiny language of the table functions of type.go: a body made of
 // `switch <ident> { case A, B: ... default: ... }` and `return <expr>` statements, where <expr> is
 // an identifier / pkg.Identifier / []T{idents} / a call of another such function in the same file /
 // anything else (returned as its source text). env maps the identifiers switched on to constant names.
-type switchEval struct {
+type c11SwitchEval struct {
 	file *ast.File
 }
 
-func (se *switchEval) run(fd *ast.FuncDecl, env map[string]string, depth int) (string, bool) {
+func (se *c11SwitchEval) run(fd *ast.FuncDecl, env map[string]string, depth int) (string, bool) {
 	if fd == nil || fd.Body == nil || depth > 4 {
 		return "", false
 	}
 	return se.block(fd.Body.List, env, depth)
 }
 
-func (se *switchEval) block(stmts []ast.Stmt, env map[string]string, depth int) (string, bool) {
+func (se *c11SwitchEval) block(stmts []ast.Stmt, env map[string]string, depth int) (string, bool) {
 	for _, st := range stmts {
 		switch x := st.(type) {
 		case *ast.ReturnStmt:
@@ -66,7 +66,7 @@ func (se *switchEval) block(stmts []ast.Stmt, env map[string]string, depth int) 
 					continue
 				}
 				for _, e := range cc.List {
-					if constName(e) == val {
+					if c11ConstName(e) == val {
 						hit = cc
 					}
 				}
@@ -93,17 +93,17 @@ func (se *switchEval) block(stmts []ast.Stmt, env map[string]string, depth int) 
 	return "", false
 }
 
-func constName(e ast.Expr) string {
+func c11ConstName(e ast.Expr) string {
 	switch x := e.(type) {
 	case *ast.Ident:
 		return x.Name
 	case *ast.SelectorExpr:
 		return x.Sel.Name
 	}
-	return exprText(e)
+	return c11Text(e)
 }
 
-func (se *switchEval) expr(e ast.Expr, env map[string]string, depth int) (string, bool) {
+func (se *c11SwitchEval) expr(e ast.Expr, env map[string]string, depth int) (string, bool) {
 	switch x := e.(type) {
 	case *ast.Ident:
 		return x.Name, true
@@ -112,7 +112,7 @@ func (se *switchEval) expr(e ast.Expr, env map[string]string, depth int) (string
 	case *ast.CompositeLit:
 		var parts []string
 		for _, el := range x.Elts {
-			parts = append(parts, constName(el))
+			parts = append(parts, c11ConstName(el))
 		}
 		return "[" + strings.Join(parts, ",") + "]", true
 	case *ast.CallExpr:
@@ -136,11 +136,11 @@ func (se *switchEval) expr(e ast.Expr, env map[string]string, depth int) (string
 			}
 		}
 	}
-	return exprText(e), true
+	return c11Text(e), true
 }
 
 // namedConsts returns the constants of f sorted by value, restricted to names in keep (nil = all).
-func sortedConsts(cs map[string]int64, keep []string) ([]string, error) {
+func c11SortedConsts(cs map[string]int64, keep []string) ([]string, error) {
 	for _, k := range keep {
 		if _, ok := cs[k]; !ok {
 			return nil, fmt.Errorf("constant %s not found", k)
@@ -151,14 +151,14 @@ func sortedConsts(cs map[string]int64, keep []string) ([]string, error) {
 	return out, nil
 }
 
-func recvName(fd *ast.FuncDecl) string {
+func c11RecvName(fd *ast.FuncDecl) string {
 	if fd.Recv != nil && len(fd.Recv.List) == 1 && len(fd.Recv.List[0].Names) == 1 {
 		return fd.Recv.List[0].Names[0].Name
 	}
 	return ""
 }
 
-func paramName(fd *ast.FuncDecl, i int) string {
+func c11ParamName(fd *ast.FuncDecl, i int) string {
 	k := 0
 	for _, p := range fd.Type.Params.List {
 		for _, n := range p.Names {
@@ -196,7 +196,7 @@ func genC11(repo string) (string, error) {
 	if tw == nil || tw.Body == nil || len(tw.Body.List) != 1 {
 		return "", fmt.Errorf("timeWindow not found")
 	}
-	fmt.Fprintf(&sb, "def timeWindowExpr : String := %s\n", strconv.Quote(exprText(tw.Body.List[0])))
+	fmt.Fprintf(&sb, "def timeWindowExpr : String := %s\n", strconv.Quote(c11Text(tw.Body.List[0])))
 
 	// ---- write(): where buf[endOffset] is assigned, with the enclosing conditions
 	wr := FindFunc(fw, "", "write")
@@ -209,11 +209,11 @@ func genC11(repo string) (string, error) {
 		for _, st := range stmts {
 			switch x := st.(type) {
 			case *ast.AssignStmt:
-				if len(x.Lhs) == 1 && exprText(x.Lhs[0]) == "buf[endOffset]" {
-					endAssigns = append(endAssigns, strings.Join(conds, " && ")+" => "+exprText(x))
+				if len(x.Lhs) == 1 && c11Text(x.Lhs[0]) == "buf[endOffset]" {
+					endAssigns = append(endAssigns, strings.Join(conds, " && ")+" => "+c11Text(x))
 				}
 			case *ast.IfStmt:
-				c := exprText(x.Cond)
+				c := c11Text(x.Cond)
 				walk(x.Body.List, append(append([]string{}, conds...), c))
 				if x.Else != nil {
 					if b, ok := x.Else.(*ast.BlockStmt); ok {
@@ -239,7 +239,7 @@ func genC11(repo string) (string, error) {
 				if s, ok := c.Fun.(*ast.SelectorExpr); ok && s.Sel.Name == "Aggregate" {
 					var as []string
 					for _, a := range c.Args {
-						as = append(as, exprText(a))
+						as = append(as, c11Text(a))
 					}
 					out = append(out, strings.Join(as, ","))
 				}
@@ -259,7 +259,7 @@ func genC11(repo string) (string, error) {
 		return "", fmt.Errorf("getCurrentValue not found")
 	}
 	if ifs, ok := gcv.Body.List[0].(*ast.IfStmt); ok {
-		sb.WriteString("def getCurrentValueGuard : String := " + strconv.Quote(exprText(ifs.Cond)) + "\n")
+		sb.WriteString("def getCurrentValueGuard : String := " + strconv.Quote(c11Text(ifs.Cond)) + "\n")
 	} else {
 		return "", fmt.Errorf("getCurrentValue does not start with its range guard")
 	}
@@ -272,8 +272,8 @@ func genC11(repo string) (string, error) {
 	}
 	created := ""
 	ast.Inspect(FindFunc(dbf, "", "NewMemoryDatabase"), func(n ast.Node) bool {
-		if kv, ok := n.(*ast.KeyValueExpr); ok && exprText(kv.Key) == "createdTime" {
-			created = exprText(kv.Value)
+		if kv, ok := n.(*ast.KeyValueExpr); ok && c11Text(kv.Key) == "createdTime" {
+			created = c11Text(kv.Value)
 		}
 		return true
 	})
@@ -307,9 +307,9 @@ func genC11(repo string) (string, error) {
 	var loop []string
 	ast.Inspect(dsf, func(n ast.Node) bool {
 		if f, ok := n.(*ast.ForStmt); ok && loop == nil {
-			loop = append(loop, "for "+exprText(f.Init)+"; "+exprText(f.Cond)+"; "+exprText(f.Post))
+			loop = append(loop, "for "+c11Text(f.Init)+"; "+c11Text(f.Cond)+"; "+c11Text(f.Post))
 			for _, st := range f.Body.List {
-				loop = append(loop, exprText(st))
+				loop = append(loop, c11Text(st))
 			}
 			return false
 		}
@@ -333,15 +333,15 @@ func genC11(repo string) (string, error) {
 	}
 	tcs := ConstInts(tf)
 	fcs := ConstInts(ff)
-	aggNames, err := sortedConsts(tcs, []string{"Sum", "Count", "Min", "Max", "Last", "First"})
+	aggNames, err := c11SortedConsts(tcs, []string{"Sum", "Count", "Min", "Max", "Last", "First"})
 	if err != nil {
 		return "", err
 	}
-	typeNames, err := sortedConsts(tcs, []string{"SumField", "MinField", "MaxField", "LastField", "HistogramField", "FirstField"})
+	typeNames, err := c11SortedConsts(tcs, []string{"SumField", "MinField", "MaxField", "LastField", "HistogramField", "FirstField"})
 	if err != nil {
 		return "", err
 	}
-	funcNames, err := sortedConsts(fcs, []string{"Sum", "Min", "Max", "Count", "Avg", "Last", "First", "Quantile", "Stddev", "Rate"})
+	funcNames, err := c11SortedConsts(fcs, []string{"Sum", "Min", "Max", "Count", "Avg", "Last", "First", "Quantile", "Stddev", "Rate"})
 	if err != nil {
 		return "", err
 	}
@@ -355,7 +355,7 @@ func genC11(repo string) (string, error) {
 	codes("aggTypeCodes", aggNames, tcs)
 	codes("fieldTypeCodes", typeNames, tcs)
 	codes("funcTypeCodes", funcNames, fcs)
-	se := &switchEval{file: tf}
+	se := &c11SwitchEval{file: tf}
 	// AggType.Aggregate: the returned expression per agg type
 	aggFn := FindFunc(tf, "AggType", "Aggregate")
 	if aggFn == nil {
@@ -363,7 +363,7 @@ func genC11(repo string) (string, error) {
 	}
 	var ae []string
 	for _, a := range aggNames {
-		r, ok := se.run(aggFn, map[string]string{recvName(aggFn): a}, 0)
+		r, ok := se.run(aggFn, map[string]string{c11RecvName(aggFn): a}, 0)
 		if !ok {
 			return "", fmt.Errorf("cannot evaluate AggType.Aggregate for %s", a)
 		}
@@ -377,7 +377,7 @@ func genC11(repo string) (string, error) {
 		}
 		var ps []string
 		for _, t := range typeNames {
-			r, ok := se.run(fd, map[string]string{recvName(fd): t}, 0)
+			r, ok := se.run(fd, map[string]string{c11RecvName(fd): t}, 0)
 			if !ok {
 				return fmt.Errorf("cannot evaluate Type.%s for %s", method, t)
 			}
@@ -404,12 +404,12 @@ func genC11(repo string) (string, error) {
 	var sp, pp []string
 	for _, t := range typeNames {
 		for _, f := range funcNames {
-			r, ok := se.run(sup, map[string]string{recvName(sup): t, paramName(sup, 0): f}, 0)
+			r, ok := se.run(sup, map[string]string{c11RecvName(sup): t, c11ParamName(sup, 0): f}, 0)
 			if !ok || (r != "true" && r != "false") {
 				return "", fmt.Errorf("cannot evaluate IsFuncSupported(%s,%s): %q", t, f, r)
 			}
 			sp = append(sp, fmt.Sprintf("(%d, %d, %s)", tcs[t], fcs[f], r))
-			r, ok = se.run(par, map[string]string{recvName(par): t, paramName(par, 0): f}, 0)
+			r, ok = se.run(par, map[string]string{c11RecvName(par): t, c11ParamName(par, 0): f}, 0)
 			if !ok || !strings.HasPrefix(r, "[") {
 				return "", fmt.Errorf("cannot evaluate GetFuncFieldParams(%s,%s): %q", t, f, r)
 			}
@@ -440,7 +440,7 @@ func genC11(repo string) (string, error) {
 	ast.Inspect(fc, func(n ast.Node) bool {
 		if cc, ok := n.(*ast.CaseClause); ok && cc.List != nil {
 			for _, e := range cc.List {
-				passthrough = append(passthrough, strconv.FormatInt(fcs[constName(e)], 10))
+				passthrough = append(passthrough, strconv.FormatInt(fcs[c11ConstName(e)], 10))
 			}
 		}
 		return true
@@ -454,7 +454,7 @@ func genC11(repo string) (string, error) {
 	ast.Inspect(FindFunc(rf, "", "RateCall"), func(n ast.Node) bool {
 		if c, ok := n.(*ast.CallExpr); ok {
 			if s, ok := c.Fun.(*ast.SelectorExpr); ok && s.Sel.Name == "SetValue" && len(c.Args) == 2 {
-				rate = exprText(c.Args[1])
+				rate = c11Text(c.Args[1])
 			}
 		}
 		return true
@@ -471,7 +471,7 @@ func genC11(repo string) (string, error) {
 	}
 	var mb []string
 	for _, st := range mcf.Body.List {
-		mb = append(mb, exprText(st))
+		mb = append(mb, c11Text(st))
 	}
 	sb.WriteString("def monthCalcFamilyBody : List String := " + LeanStrList(mb) + "\n")
 	_, sg, err := ParseFile(repo, "tsdb/segment.go")
@@ -486,10 +486,10 @@ func genC11(repo string) (string, error) {
 	rsd := FindFunc(rd, "metricReader", "readSeriesData")
 	single := ""
 	ast.Inspect(rsd, func(n ast.Node) bool {
-		if is, ok := n.(*ast.IfStmt); ok && single == "" && exprText(is.Cond) == "fieldCount == 1" {
+		if is, ok := n.(*ast.IfStmt); ok && single == "" && c11Text(is.Cond) == "fieldCount == 1" {
 			var parts []string
 			for _, st := range is.Body.List {
-				parts = append(parts, exprText(st))
+				parts = append(parts, c11Text(st))
 			}
 			single = strings.Join(parts, " ; ")
 		}
